@@ -77,6 +77,9 @@ func (ap *AttestationPool) AddAttestation(ctx context.Context, att *phase0.Attes
 	if count == 0 {
 		return errors.New("empty attestations are not allowed")
 	}
+	if bitLen := att.AggregationBits.BitLen(); bitLen != uint64(len(committee)) {
+		return fmt.Errorf("committee mismatch, bitfield length %d does not match committee size %d", bitLen, len(committee))
+	}
 
 	// store data and committee, so we won't have to inevitably fetch the info from a state or cache later.
 	dataRoot := att.Data.HashTreeRoot(tree.GetHashFn())
